@@ -138,6 +138,13 @@ func opDesc(v ssa.Value, d int) string {
 		if b, ok := x.Type().Underlying().(*types.Basic); ok && b.Kind() == types.Bool {
 			return flagDesc(x, d)
 		}
+		if _, ok := x.Type().Underlying().(*types.Slice); ok {
+			// a list variable: described by the conditions under which something is appended to it (a list
+			// whose length is tested stands for the flag "something of that kind was seen")
+			if ld := listDesc(x, d); ld != "" {
+				return ld
+			}
+		}
 		var es []string
 		for _, e := range x.Edges {
 			if dependsOn(e, x, 0) {
@@ -297,6 +304,50 @@ func stickyFlagOf(site *ssa.BasicBlock) *ssa.Phi {
 	return nil
 }
 
+// listDesc describes a slice variable by the conditions under which it grows.
+func listDesc(phi *ssa.Phi, d int) string {
+	var sets []string
+	seen := map[*ssa.Phi]bool{}
+	var visit func(p *ssa.Phi)
+	visit = func(p *ssa.Phi) {
+		if seen[p] {
+			return
+		}
+		seen[p] = true
+		outer := map[string]bool{}
+		for _, c := range core.ControlConds(p.Block()) {
+			outer[condAtomD(c, d+1)] = true
+		}
+		for _, e := range p.Edges {
+			switch ev := e.(type) {
+			case *ssa.Phi:
+				visit(ev)
+			case *ssa.Call:
+				if b, ok := ev.Call.Value.(*ssa.Builtin); ok && b.Name() == "append" {
+					var cs []string
+					for _, c := range core.CondsAt(ev.Block()) {
+						a := condAtomD(c, d+1)
+						if !outer[a] && !strings.Contains(a, "ok(") {
+							cs = append(cs, a)
+						}
+					}
+					sort.Strings(cs)
+					sets = append(sets, strings.Join(uniq(cs), "&"))
+					if q, ok := ev.Call.Args[0].(*ssa.Phi); ok {
+						visit(q)
+					}
+				}
+			}
+		}
+	}
+	visit(phi)
+	if len(sets) == 0 {
+		return ""
+	}
+	sort.Strings(sets)
+	return "list{" + strings.Join(uniq(sets), "|") + "}"
+}
+
 // condAtom renders a branch condition with the sense folded into the operator.
 func condAtom(c core.Cond) string { return condAtomD(c, 0) }
 
@@ -438,7 +489,7 @@ func SpecPred(p *core.Prog, r *core.Report) {
 	const rule = "SPEC-PRED"
 	vp := "(*SpecValidator).validateParameters"
 	clauses := []predClause{
-		{vp, "bothFormDataAndBodyMsg", []string{`^flag\{.*In == "body".*\}$`, `^flag\{.*In == "formData".*\}$`}, []string{`^!flag\{.*In == "body"`, `^!flag\{.*In == "formData"`}, "body and formData parameters are mutually exclusive"},
+		{vp, "bothFormDataAndBodyMsg", []string{`^flag\{.*In == "body".*\}$|^len\(list\{.*In == "body".*\}\) > 0$`, `^flag\{.*In == "formData".*\}$|^len\(list\{.*In == "formData".*\}\) > 0$`}, []string{`^!flag\{.*In == "body"`, `^!flag\{.*In == "formData"`}, "body and formData parameters are mutually exclusive"},
 		{vp, "multipleBodyParamMsg", []string{`^len\(.*\) > 1$`}, nil, "at most one body parameter"},
 		{vp, "pathParamRequiredMsg", []string{`\.In == "path"$`, `^!.*Required$`}, nil, "a path parameter must be required"},
 		{vp, "pathParamNotUniqueMsg", []string{` > `, ` == `}, nil, "a placeholder may appear once in a path (p == q at a later position)"},
